@@ -113,10 +113,20 @@ def walk_all(e):
 
 
 # ----------------------------------------------------------------------------- rendering
-def _lit(cs):
+def _lit(cs, esc=False):
+    """String literal. Newlines are written as the escape \\n; with esc the first character is written
+    as a \\xNN escape (another spelling of the same literal)."""
     s = text(cs)
-    assert "'" not in s and "\\" not in s and "\n" not in s, s
-    return "'" + s + "'"
+    assert "'" not in s and "\\" not in s, s
+    out = ""
+    for i, ch in enumerate(s):
+        if ch == "\n":
+            out += "\\n"
+        elif esc and i == 0 and ord(ch) < 256:
+            out += "\\x%02x" % ord(ch)
+        else:
+            out += ch
+    return "'" + out + "'"
 
 
 def _re_cls(cs):
@@ -135,7 +145,10 @@ def render_re(e):
     core = _re_cls(e["set"]) + q
     if e["grp"]:
         core = "(" + core + ")"
-    return "/" + _re_lit(e["pre"]) + core + _re_lit(e["post"]) + "/"
+    pre = _re_lit(e["pre"])
+    if e.get("ncg") and pre:
+        pre = "(?:" + pre + ")"          # another spelling of the same regex (non-capturing group first)
+    return "/" + pre + core + _re_lit(e["post"]) + "/"
 
 
 def _mods(e):
@@ -151,7 +164,7 @@ def render(e, top=False):
     k = e["k"]
     sup = "-" if e.get("sup") else ""
     if k == "str":
-        return _lit(e["lit"]) + sup
+        return _lit(e["lit"], e.get("esc", False)) + sup
     if k == "re":
         return render_re(e) + sup
     if k == "ref":
@@ -373,7 +386,10 @@ class GrammarGen:
     def terminal(self, names_below, allow_ref=True):
         r = self.rng.random()
         if r < 0.4:
-            return Str(self.pick(self.o["lits"]))
+            t = Str(self.pick(self.o["lits"]))
+            if self.chance(self.o.get("esc", 0.0)):
+                t["esc"] = True
+            return t
         if r < 0.55:
             st = self.pick(RSETS)
             pre = self.pick(["", "", "#", "x"])
@@ -381,7 +397,10 @@ class GrammarGen:
             mn = self.pick([0, 1, 1])
             if mn == 0 and not pre and not post:
                 mn = 1
-            return Re(pre, st, mn, post, grp=self.chance(self.o["regroup"]))
+            t = Re(pre, st, mn, post, grp=self.chance(self.o["regroup"]))
+            if pre and self.chance(self.o.get("ncg", 0.0)):
+                t["ncg"] = True
+            return t
         if r < 0.8 or not names_below or not allow_ref:
             return Ref(self.pick(self.o["base"]))
         return Ref(self.pick(names_below))
